@@ -482,6 +482,139 @@ def r17_continue_elimination(text):
             return text, cnt
 
 
+def _tail_continue_block(interior):
+    """R17b helper. interior: text between the braces of a block in loop-tail position. Removes a `continue` that is the
+    last thing executed on its path (last statement of the block; recursively through the arms of a trailing `match`
+    and the branches of a trailing `if`/`else` chain or nested block). Returns (text, count)."""
+    m = L.mask(interior)
+    stmts = _split_stmts(interior, m, 0, len(interior))
+    if not stmts:
+        return interior, 0
+    st, en = stmts[-1]
+    if m[en:].strip():
+        return interior, 0
+    new, n = _tail_continue_expr(interior[st:en])
+    return interior[:st] + new + interior[en:], n
+
+
+def _tail_continue_expr(seg):
+    m = L.mask(seg)
+    body = m.strip()
+    lead = len(m) - len(m.lstrip())
+    if re.fullmatch(r"continue\s*;?", body):
+        return seg[:lead] + "{}" + (seg[lead + len(body):]), 1
+    if body.startswith("{"):
+        bo = lead
+        bc = L.match_close(m, bo)
+        if m[bc + 1:].strip() in ("", ";"):
+            inner, n = _tail_continue_block(seg[bo + 1:bc])
+            return seg[:bo + 1] + inner + seg[bc:], n
+        return seg, 0
+    if re.match(r"if\b", body):
+        # branches of the if / else-if / else chain
+        out, n, i = seg, 0, lead
+        spans = []
+        j = i
+        while True:
+            while j < len(m) and m[j] != "{":
+                if m[j] in "([":
+                    j = L.match_close(m, j)
+                j += 1
+            if j >= len(m):
+                return seg, 0
+            bc = L.match_close(m, j)
+            spans.append((j, bc))
+            k = L.skip_ws(m, bc + 1)
+            if m.startswith("else", k) and not (m[k + 4:k + 5].isalnum() or m[k + 4:k + 5] == "_"):
+                j = k + 4
+                continue
+            if m[bc + 1:].strip() not in ("", ";"):
+                return seg, 0
+            break
+        for (bo, bc) in reversed(spans):
+            inner, k = _tail_continue_block(out[bo + 1:bc])
+            out = out[:bo + 1] + inner + out[bc:]
+            n += k
+        return out, n
+    if re.match(r"match\b", body):
+        j = lead
+        while j < len(m) and m[j] != "{":
+            if m[j] in "([":
+                j = L.match_close(m, j)
+            j += 1
+        if j >= len(m):
+            return seg, 0
+        bo, bc = j, L.match_close(m, j)
+        if m[bc + 1:].strip() not in ("", ";"):
+            return seg, 0
+        # arms: PATTERN => BODY[,]
+        arms = []
+        i = bo + 1
+        while True:
+            k = i
+            arrow = None
+            while k < bc:
+                if m[k] in "([{":
+                    k = L.match_close(m, k)
+                elif m.startswith("=>", k):
+                    arrow = k
+                    break
+                k += 1
+            if arrow is None:
+                break
+            b0 = L.skip_ws(m, arrow + 2)
+            if m[b0] == "{":
+                b1 = L.match_close(m, b0) + 1
+                # a block arm may still continue as an expression (`{..}.x()`): then it ends at the comma
+                k2 = L.skip_ws(m, b1)
+                if k2 < bc and m[k2] not in ",":
+                    # next arm starts without comma, or expression continues; find out by looking for `=>` before a `,`
+                    pass
+                e = b1
+            else:
+                e = b0
+                while e < bc and m[e] != ",":
+                    if m[e] in "([{":
+                        e = L.match_close(m, e)
+                    e += 1
+            arms.append((b0, e))
+            i = e
+            k2 = L.skip_ws(m, i)
+            if k2 < bc and m[k2] == ",":
+                i = k2 + 1
+        out, n = seg, 0
+        for (b0, e) in reversed(arms):
+            new, k = _tail_continue_expr(out[b0:e])
+            out = out[:b0] + new + out[e:]
+            n += k
+        return out, n
+    return seg, 0
+
+
+def r17b_tail_continue(text):
+    """R17b: inside a `for` body, a `continue` that is the last thing executed on its path through the body (last
+    statement of the body, possibly inside the arms of a trailing `match` or the branches of a trailing `if`) is replaced
+    by `{}`: falling off the end of the body is what `continue` does there. (Verus: no `continue` in for-loops.)"""
+    cnt = 0
+    done = set()
+    while True:
+        m = L.mask(text)
+        changed = False
+        for (kw_pos, kw, bo) in L.find_loops(m, 0, len(m)):
+            if kw != "for" or kw_pos in done:
+                continue
+            bc = L.match_close(m, bo)
+            new, n = _tail_continue_block(text[bo + 1:bc])
+            done.add(kw_pos)
+            if n:
+                text = text[:bo + 1] + new + text[bc:]
+                cnt += n
+                changed = True
+                break
+        if not changed:
+            return text, cnt
+
+
 def r18_question_mark(text):
     """R18: a statement-final `?` is desugared per the Rust reference:
          `EXPR?;`            -> `match EXPR { Ok(_) => {}, Err(e__) => return Err(From::from(e__)) };`
@@ -654,6 +787,7 @@ def r18b_hoist_question_mark(text):
 
 RULES = {
     "R18b": r18b_hoist_question_mark,
+    "R17b": r17b_tail_continue,
     "R20": r20_mut_self,
     "R18": r18_question_mark,
     "R17": r17_continue_elimination,
